@@ -648,7 +648,12 @@ func derivesOnEdge(rv ssa.Value, d map[ssa.Value]bool, from *ssa.BasicBlock, ret
 			any := false
 			for i, e := range phi.Edges {
 				pred := phi.Block().Preds[i]
-				if !ssau.Reaches(from, pred) {
+				if phi.Block() == from {
+					// the failure edge leads straight into the join: only the edge coming from the test counts
+					if !isNilTestBlock(pred, errV, d) {
+						continue
+					}
+				} else if !ssau.Reaches(from, pred) {
 					continue
 				}
 				any = true
@@ -681,6 +686,19 @@ func derivesOnEdge(rv ssa.Value, d map[ssa.Value]bool, from *ssa.BasicBlock, ret
 		return d[v]
 	}
 	return rec(rv)
+}
+
+// isNilTestBlock: the block ends in a branch on a nil comparison of the error.
+func isNilTestBlock(b *ssa.BasicBlock, errV ssa.Value, d map[ssa.Value]bool) bool {
+	if len(b.Instrs) == 0 {
+		return false
+	}
+	iff, ok := b.Instrs[len(b.Instrs)-1].(*ssa.If)
+	if !ok {
+		return false
+	}
+	nc, ok := ssau.AsNilCompare(iff.Cond)
+	return ok && (nc.X == errV || d[nc.X])
 }
 
 // lossyWrap returns a fmt.Errorf call on the derivation chain of rv that drops the cause.
